@@ -198,7 +198,7 @@ func encoded(rng *rand.Rand, dialect string, nPlayers, nObjs, nFrag int) (u.Stat
 		flat := s.Flat()
 		var cuts []int
 		if isFragmenting(dialect) {
-			cuts = u.RandCuts(rng, len(flat), nFrag, dialect == "gs1")
+			cuts = u.RandCuts(rng, len(flat), nFrag, dialect == "gs1" && rng.Intn(2) == 0)
 		}
 		ds := u.Encode(dialect, s, cuts)
 		if fits(ds) {
@@ -340,7 +340,7 @@ func genProbe(rng *rand.Rand, emit core.Emit) {
 			s := detailsStatus(rng, hp, with)
 			var cuts []int
 			if isFragmenting(d) {
-				cuts = u.RandCuts(rng, len(s.Flat()), 1+rng.Intn(3), d == "gs1")
+				cuts = u.RandCuts(rng, len(s.Flat()), 1+rng.Intn(3), d == "gs1" && rng.Intn(2) == 0)
 			}
 			ds := u.Encode(d, s, cuts)
 			rng.Shuffle(len(ds), func(a, b int) { ds[a], ds[b] = ds[b], ds[a] })
